@@ -637,6 +637,8 @@ class Gen:
                                                              "/* constructor( require(x == true, \"long\"); */",
                                                              "/// @notice a / b * c and i++ in a comment",
                                                              "/* pragma solidity ^0.8.0; uint256 constant x = 1; */",
+                                                             "// solstat-ignore-next-line", "// solhint-disable-next-line no-inline-assembly",
+                                                             "/* solstat-ignore */ // slither-disable-next-line all",
                                                              "/* \u65e5\u672c\u8a9e\u306e\u30b3\u30e1\u30f3\u30c8\u3067\u3059\u3001\u3053\u308c\u306f\u9577\u3044 \U0001F600\U0001F600\U0001F600 */",
                                                              "// \u00c4\u00d6\u00dc \u2014 \u0435\u0449\u0451 \u2014 \u4e2d\u6587\u6ce8\u91ca\u4e2d\u6587\u6ce8\u91ca"]))
             out += ["    " + s for s in m]
@@ -772,6 +774,35 @@ def literal_matrix(version, part):
             "        require(x / 0 * 0 == 0 % 0, \"\");", "        require(x > 0 / 0, \"\" \"\");",
             "    }", "}"]
     return "\n".join(head + lines + tail) + "\n"
+
+
+STRING_FORMS = ['"\\n"', '"\\t\\r"', '"\\\\"', '"\\""', "'single'", "'it\\'s'", '"\\x41\\x00\\xff"', '"\\ud800"', '"\\udfff"', '"\U0001F600"',
+                '"\\uD83D"', '"\\u{1F600}"', '"\\0"', '"\\q"', 'unicode"\U0001F600 ok"', 'unicode"caf\u00e9"', 'hex"00ff"', 'hex"00_ff"', "hex''",
+                'hex"0"', '"caf\u00e9"', '"tab\tinside"', '"a" "b"', 'unicode"a" unicode"b"', 'hex"00" hex"ff"', '"\\\ncontinued"', '"\\x4"',
+                '"\\u00"', '""', "''", '"\\b\\f\\v"', '"\\u000a"', '"\\ud83d\\ud83d"', '"\\ude00\\ud83d"', '"\\ud83d\\ude00"', '"\uffff\ufffe"',
+                '"%s {} {0} \\{"']
+
+
+def string_matrix(version):
+    """Every form of string literal the lexer accepts (escapes of every kind, lone and paired surrogates, unicode and
+    hex literals, adjacent parts, a line continuation), short and padded beyond 32 bytes, in every place a detector
+    looks at a string: analysis must not abort on any of them (C04) whatever it computes from the text of the literal."""
+    body = []
+    k = 0
+    for form in STRING_FORMS:
+        longer = form
+        if form[0] in "\"'" and len(form) >= 2 and " " not in form[1:-1].replace("\\", ""):
+            longer = form[0] + "p" * 33 + form[1:]
+        for lit in (form, longer):
+            k += 1
+            body += ["        require(a > %d, %s);" % (k, lit),
+                     "        if (a == %d) { revert(%s); }" % (k, lit),
+                     "        h = keccak256(%s);" % (lit if not lit.startswith("unicode") else "bytes(%s)" % lit),
+                     "        emit Said(%s);" % lit]
+    head = ["pragma solidity %s;" % version, "library SafeMath { function add(uint256 x, uint256 y) internal pure returns (uint256) { return x + y; } }",
+            "contract StringMatrix {", "    using SafeMath for uint256;", "    bytes32 h;", "    event Said(string what);",
+            "    function f(uint256 a) public {"]
+    return "\n".join(head + body + ["        a.add(1);", "    }", "}"]) + "\n"
 
 
 def write_many(outdir, seed, count, prefix="g"):
